@@ -65,6 +65,10 @@ add("C17", "bounded-exhaustive enumeration of interface programs x binding maps;
     "F5 programs: every multiset of 3 resource kinds x 5 stage combinations (1-4 entry points) x use-subsets per entry point x IO signatures (bare and struct, builtins, locations 0/1/2/15, all interpolation and sampling attributes, invariant) x shared/unshared bindings x direct/helper-routed use. The model (group/binding, storage class, access mode, stage, workgroup size, per-IO decorations, per-entry-point static use through the call graph) is compared in both directions with SPIR-V 1.1/1.4 (decorations, execution models/modes, OpEntryPoint interface lists), HLSL registers/spaces under the default and an explicit map, MSL buffer slots/address spaces/constness under a per-entry-point resource map, GLSL layout(binding), per-entry-point block elimination and the Uniforms reflection, and reflection entry-point names.",
     "The model comes from the generator, not from naga. Not modelled: MSL vertex/fragment argument attributes, GLSL in/out location qualifiers, HLSL samplers (sampler heap indirection), texture-sampler pairing reflection.", "DESIGN.md §3 C17")
 
+add("C06", "bounded-exhaustive enumeration of constant expressions (every operator/builtin/conversion x operand tuples x literal kinds x compile-time contexts), compiled by the real pipeline and executed; three-way comparison with the reference evaluator",
+    "Every F1 operator, builtin, conversion and select on every operand tuple of its alphabet, written with suffixed literals, bare abstract literals and named constants, in the value contexts (folded let sub-expression, module const, function const, named operands) for scalar, vector and matrix shapes: the lowered module is executed by the IR interpreter and the SPIR-V by the SPIR-V interpreter and both must equal the reference evaluator's run-time value of the same expression. For scalar specs the non-value contexts are checked through their own observables: const_assert (true accepted / false rejected), switch case selector (case taken), array size (element count in the lowered type), @workgroup_size (LocalSize). Integer division and remainder by zero must be rejected in every context and shape.",
+    "Compile-time and run-time evaluation agree by the WGSL rules on the alphabets used (shift counts < 32, non-overflowing left shifts, in-range conversions, bit-field operands with offset+count <= 32). f16 literals are not enumerated.", "DESIGN.md §3 C06")
+
 NA = {
 }
 for i in range(1, 20):
